@@ -289,9 +289,13 @@ theorem stable_step (s : St) (op : Op) : Stable cfg s (step cfg s op).1 := by
   | values id => simp only [step]; split <;> exact stable_refl s
   | view v => simp only [step]; split <;> exact stable_refl s
   | own id target => simp only [step]; exact stable_stepOwn s id target
-  | sweep victims order => simp only [step, St.sweep]; exact stable_collect s _
-  | thr victims order => simp only [step, St.sweep]; exact stable_collect s _
-  | exit order => simp only [step]; split <;> exact stable_refl s
+  | sweep victims order => simp only [step]; split
+                           · exact stable_refl s
+                           · simp only [St.sweep]; exact stable_collect s _
+  | thr victims order => simp only [step]; split
+                         · exact stable_refl s
+                         · simp only [St.sweep]; exact stable_collect s _
+  | exit order => simp only [step]; exact stable_refl s
   | finish => exact stable_refl s
 
 theorem stable_run (ops : List Op) : ∀ s : St, Stable cfg s (run cfg s ops) := by
